@@ -90,6 +90,9 @@ type scenOpts struct {
 	queueOnly      bool // pools: only the queue orderings
 	ctxDeadlinePct int
 	ctxDeadlines   []time.Duration
+	// cancelOnReleasePct: chance that a cancellation is moved onto the instant of one of the releases and may land
+	// mid-operation (the caller that has just been woken, or has just won the token, is the one cancelled)
+	cancelOnReleasePct int
 }
 
 func drawScen(r *Run, o scenOpts) *scen {
@@ -99,6 +102,7 @@ func drawScen(r *Run, o scenOpts) *scen {
 	c.Strategy = o.strategies[t.Intn(len(o.strategies), "strategy")]
 	c.Limit = o.limits[t.Intn(len(o.limits), "limit")]
 	c.Backlog = o.backlogs[t.Intn(len(o.backlogs), "backlog")]
+	c.DebugLog = t.Chance(25, "debug-logger")
 	switch c.Kind {
 	case "blocking":
 		c.Timeout = o.bTimeouts[t.Intn(len(o.bTimeouts), "btimeout")]
@@ -161,6 +165,14 @@ func drawScen(r *Run, o scenOpts) *scen {
 		for i := 0; i < pre; i++ {
 			if t.Chance(80, "release-pre?") {
 				sc.releases = append(sc.releases, relSpec{at: o.relTimes[t.Intn(len(o.relTimes), "rel-at")], outcome: t.Intn(3, "rel-outcome")})
+			}
+		}
+	}
+	if o.cancelOnReleasePct > 0 && len(sc.releases) > 0 {
+		for _, cl := range sc.clients {
+			if cl.spec.cancelAt >= 0 && t.Chance(o.cancelOnReleasePct, "cancel-on-release?") {
+				cl.spec.cancelAt = sc.releases[t.Intn(len(sc.releases), "cancel-on-which-release")].at
+				cl.spec.cancelMidOp = true
 			}
 		}
 	}
